@@ -49,7 +49,9 @@ META = {
     "uses the short menu on two values. When the output of urlize/xmlattr/tojson is processed further (chopped, "
     "reversed ...) its documented markup cannot be removed by a regex, so those cases use the weaker marker "
     "oracle (raw ' or the intact sequences <T> / \"T' are leaks). Excluded by the property: safe filter, Markup "
-    "in data, gettext, autoescape-off regions (so macros/includes are always defined inside an active region).",
+    "in data, gettext calls and the translation strings of trans blocks (template text; but the variable VALUES of "
+    "trans blocks are data: old- and new-style trans frames with header/body/count variables, context string and "
+    "pluralize are part of the frame set), autoescape-off regions (so macros/includes are always defined inside an active region).",
     "design_ref": "DESIGN.md §4 C15, §3 E1",
 }
 
@@ -62,6 +64,8 @@ LD = "{\"k\": %s}" % LIT
 XU = "see http://e.xy/?q=" + TAINT + " (www.e.xy/" + TAINT + ") m@e.xy tt:" + TAINT
 XU2 = "http://a.bc/" + TAINT + "/long/path"  # taint within the first 16 characters of a recognised URL
 XN = TAINT + "\n" + TAINT + " " + TAINT + "\n\n" + TAINT
+
+NEWSTYLE_MARK = "{# newstyle-gettext #}"  # template comment selecting new-style gettext for trans frames
 
 MODES = ("static", "select", "blk-true", "blk-flag-off", "blk-flag-on")
 
@@ -336,6 +340,28 @@ DATA_IN = [
        "{% endfor %}{% endfor %}»"),
 ]
 
+def _trans_frames():
+    out = []
+    shapes = [
+        ("trans-var", "{% trans v=@@ %}a{{ v }}b{% endtrans %}"),
+        ("trans-bodyvar", "{% set w = @@ %}{% trans %}a{{ w }}b{% endtrans %}"),
+        ("trans-ctx", "{% trans \"c\" v=@@ %}a{{ v }}b{% endtrans %}"),
+        ("trans-plural", "{% trans n=2, v=@@ %}a{{ v }}{% pluralize %}{{ n }}a{{ v }}s{% endtrans %}"
+                         "{% trans n=1, v=@@ %}a{{ v }}{% pluralize %}{{ n }}a{{ v }}s{% endtrans %}"),
+        ("trans-ctx-plural", "{% trans \"c\" n=2, v=@@ %}a{{ v }}{% pluralize %}{{ n }}a{{ v }}s{% endtrans %}"
+                             "{% trans \"c\" n=1, v=@@ %}a{{ v }}{% pluralize %}{{ n }}a{{ v }}s{% endtrans %}"),
+        ("trans-count-var", "{% trans v=@@ %}a{{ v }}{% pluralize %}a{{ v }}s{% endtrans %}"),
+        ("trans-in-macro", "{% macro m(a) %}{% trans v=a %}a{{ v }}b{% endtrans %}{% endmacro %}{{ m(@@) }}"),
+        ("trans-trimmed", "{% trans trimmed v=@@ %}a {{ v }} b{% endtrans %}"),
+    ]
+    for name, body in shapes:
+        out.append(_f(name + "-oldstyle", "«" + body + "»"))
+        out.append(_f(name + "-newstyle", NEWSTYLE_MARK + "«" + body + "»"))
+    return out
+
+
+DATA_IN += _trans_frames()
+
 DATA_OUT = [
     _f("macro-ret", "«{% macro m(a) %}[{{ a }}]{% endmacro %}{{ @@ }}»", ["m(x)", "m(%s)" % LIT]),
     _f("macro-ret-toplevel", "{% macro m(a) %}«[{{ a }}]»{% endmacro %}«{{ @@ }}»", ["m(x)"]),
@@ -386,9 +412,25 @@ def make_env(mode, templates):
         auto = jinja2.select_autoescape(enabled_extensions=("html",), default_for_string=False, default=False)
     else:
         auto = False
-    env = jinja2.Environment(autoescape=auto, loader=jinja2.DictLoader(templates))
+    i18n = i18n_style(templates)
+    env = jinja2.Environment(autoescape=auto, loader=jinja2.DictLoader(templates),
+                             extensions=["jinja2.ext.i18n"] if i18n else [])
+    if i18n:
+        # identity translations; the translation STRING is template text (excluded by the property), the
+        # variable VALUES of a trans block are data and must be escaped
+        env.install_gettext_callables(
+            lambda s: s, lambda s, p, n: s if n == 1 else p, newstyle=(i18n == "new"),
+            pgettext=lambda c, s: s, npgettext=lambda c, s, p, n: s if n == 1 else p)
     env.globals["flag"] = True  # runtime-evaluated; a global so that imports without context see it too
     return env
+
+
+def i18n_style(templates):
+    """None | 'old' | 'new': trans frames carry a template comment that selects the gettext style."""
+    text = "".join(templates.values())
+    if "{% trans" not in text:
+        return None
+    return "new" if NEWSTYLE_MARK in text else "old"
 
 
 def script_for(mode, templates):
@@ -396,7 +438,11 @@ def script_for(mode, templates):
             "jinja2.select_autoescape(enabled_extensions=('html',), default_for_string=False, default=False)"}.get(
         mode, "False")
     return ("import jinja2, random\n" + CTX_SRC + "templates = %r\n" % (templates,)
-            + "env = jinja2.Environment(autoescape=%s, loader=jinja2.DictLoader(templates))\n" % auto
+            + "env = jinja2.Environment(autoescape=%s, loader=jinja2.DictLoader(templates)%s)\n" % (
+                auto, ", extensions=['jinja2.ext.i18n']" if i18n_style(templates) else "")
+            + ("env.install_gettext_callables(lambda s: s, lambda s, p, n: s if n == 1 else p, newstyle=%r, "
+               "pgettext=lambda c, s: s, npgettext=lambda c, s, p, n: s if n == 1 else p)\n"
+               % (i18n_style(templates) == "new") if i18n_style(templates) else "")
             + "env.globals['flag'] = True\nrandom.seed(0)\n"
             + "out = env.get_template('t.html').render(ctx)\n"
             + "print(out)\n"
